@@ -38,6 +38,7 @@ type interpreter struct {
 	trace              bool
 	repoPrefix         string
 	mapOrderAny        int // >0 while inside nd.AnyMapOrder
+	mapOrderEpoch      int
 	poisoned           map[*ssa.Global]string
 }
 
